@@ -26,6 +26,8 @@ CONSTANTS Schema,     \* sequence of [n, k, m]: the data columns
           Keyed,      \* BOOLEAN: rows are created through InsertKey / UpsertKey (the schema has a key column)
           Snap,       \* the actor taking one snapshot of P ("none": no snapshot)
           SnapFails,  \* BOOLEAN: the snapshot's destination may fail at any point (the snapshot is then retried)
+          Snap2,      \* a second actor taking one snapshot of P meanwhile ("none"): it waits while the first holds the recorder
+          RstFile,    \* which of the two files ("f": Snap's, "g": Snap2's) is restored into S
           Rst,        \* the actor restoring that snapshot into S at the end
           Rep,        \* the actor replaying on R
           ReplayAtEnd,\* BOOLEAN: replay only once every writer is done (replays commute with the primary's steps)
@@ -141,9 +143,15 @@ SnapStep ==
      \/ SnapHeader(Snap) \/ SnapBlock(Snap) \/ SnapClose(Snap) \/ SnapCopy(Snap, "f")
      \/ SnapFails /\ "f" \notin DOMAIN files /\ ~txn[Snap].replay /\ SnapFail(Snap) /\ txn'[Snap].pc = "done"
      \/ SnapFails /\ txn[Snap].pc = "done" /\ "f" \notin DOMAIN files /\ SnapOpen(Snap, "P")
+\* the second snapshot: it can only install its recorder while none is installed (a refused attempt changes nothing, so it is
+\* simply not enabled) - in particular between the first snapshot's detach and its return, and the other way round
+Snap2Step ==
+  /\ Snap2 # "none"
+  /\ \/ txn[Snap2].pc = "idle" /\ SnapOpen(Snap2, "P")
+     \/ SnapHeader(Snap2) \/ SnapBlock(Snap2) \/ SnapClose(Snap2) \/ SnapCopy(Snap2, "g")
 RestoreStep ==
-  /\ Snap # "none" /\ "f" \in DOMAIN files
-  /\ \/ txn[Rst].pc = "idle" /\ RestoreBegin(Rst, "S", "f", FALSE)
+  /\ Snap # "none" /\ RstFile \in DOMAIN files
+  /\ \/ txn[Rst].pc = "idle" /\ RestoreBegin(Rst, "S", RstFile, FALSE)
      \/ /\ RestoreCanLoad(Rst)
         /\ \E mode \in {"strict", "asbuilt"} :
              RestoreApply(Rst, MinOf(RestoreLoaded(Rst).dirty), NextId, mode)
@@ -165,7 +173,7 @@ SchemaStep ==
      \/ \E n \in ColNames \ DOMAIN st["P"].reg : CreateColumn("P", n, DescOf(n))
 
 MCNext ==
-  \/ SnapStep \/ RestoreStep \/ SchemaStep
+  \/ SnapStep \/ Snap2Step \/ RestoreStep \/ SchemaStep
   \/ \E t \in Writers : WriterStep(t) \/ CommitStep(t)
   \/ (Replica /\ (ReplayStep \/ CommitStep(Rep)))
 
@@ -184,10 +192,10 @@ Converged ==
 \* C08: the restored collection's blocks each equal the primary's block after some prefix of the commits applied
 \* to that block: at least those applied before the snapshot call began, at most those applied when it returned
 ConsistentCut ==
-  (Snap # "none" /\ "f" \in DOMAIN files /\ txn[Rst].pc = "done") =>
+  (Snap # "none" /\ RstFile \in DOMAIN files /\ txn[Rst].pc = "done") =>
      (Excused({"D-inflight-insert-visible", "D-failed-insert-applied", "D-write-dead-row", "D-dead-delete", "D-swap-append"}) \/
       \A i \in DOMAIN st["P"].ap :
-         \E k \in files["f"].lo[i]..files["f"].hi[i] : BlockProj(st["S"], i - 1) = st["P"].ap[i][k])
+         \E k \in files[RstFile].lo[i]..files[RstFile].hi[i] : BlockProj(st["S"], i - 1) = st["P"].ap[i][k])
 
 \* C14: whenever no snapshot is running the recorder is detached
 RecorderClean ==
